@@ -11,6 +11,8 @@ R5 input-proportional recursion (call-graph cycles of the compile phase)
 R6 the tag registry resolves
 """
 import ast
+
+from ..callgraph import recv_is_external
 import re
 
 from ..callgraph import CallGraph
@@ -244,7 +246,8 @@ def source_text_params(model):
                 tgt = None
                 if t[0] == 'func':
                     tgt = t[1]
-                elif t[0] == 'method' and t[1] == 'search':
+                elif t[0] == 'method' and t[1] == 'search' and \
+                        not recv_is_external(model, t[2], fi):
                     c = model.find_func('DT_HTML', 'dtml_re_class.search')
                     tgt = c
                 if tgt is None:
@@ -347,6 +350,13 @@ def rule_partial(model):
                         break
                 if not guarded:
                     guarded = _index_within_matched_prefix(n, fi)
+                if not guarded and w == 'DT_HTML:dtml_re_class.search':
+                    # prefix-knowledge interpretation: the index is inside
+                    # what the tests taken say the text starts with, on
+                    # every path that evaluates it
+                    from . import scan
+                    ent = scan.scan(model).index.get(id(n))
+                    guarded = bool(ent and ent[1] and all(ent[1]))
                 ra.instance(w, n, 'index' + (' (guarded)' if guarded
                                              else ''))
                 if not guarded:
